@@ -95,6 +95,7 @@ type Sim struct {
 	strat strategy
 
 	MaxSteps   uint64
+	Exhausted  bool // the step / tape budget ran out
 	Counters   map[string]int64
 	Violations []Violation
 	// StopOnViolation makes Run return as soon as a violation is recorded.
@@ -279,6 +280,12 @@ func (s *Sim) CountLocked(name string, d int64) { s.Counters[name] += d }
 
 func (s *Sim) Violate(class, detail string) {
 	s.mu.Lock()
+	if s.Exhausted {
+		// the run ran out of its step budget: whatever is observed afterwards
+		// is a consequence of stopping early, not of the code under test
+		s.mu.Unlock()
+		return
+	}
 	s.Violations = append(s.Violations, Violation{Class: class, Detail: detail, Seq: s.seq, VTime: int64(time.Since(s.Start))})
 	s.logLocked("VIOLATION", class)
 	s.mu.Unlock()
@@ -346,6 +353,9 @@ func (s *Sim) Run(until func() bool, maxV time.Duration) Stop {
 			return StopTime
 		}
 		if s.steps >= s.MaxSteps || s.T.Over {
+			s.mu.Lock()
+			s.Exhausted = true
+			s.mu.Unlock()
 			return StopSteps
 		}
 		s.mu.Lock()
